@@ -34,6 +34,7 @@ pub const RC_UNREPRESENTABLE: u32 = u32::MAX;
 
 pub fn res_expect(r: &ResultSpec, ctrls: &Option<Vec<Ctl>>) -> ResC {
     let rc = match r.rc_wide {
+        _ if r.rc_octets.is_some() => RC_UNREPRESENTABLE,
         Some(w) if w > u32::MAX as u64 => RC_UNREPRESENTABLE,
         Some(w) => w as u32,
         None => r.rc,
